@@ -1,6 +1,6 @@
 (* C06 — deserialize and deserialization_schema agree on what is valid. *)
 From Coq Require Import List String ZArith Bool.
-From AV Require Import Schema.ObjAgree Schema.NestAgree Schema.RefAgree Core.Json Deser.Model Deser.Spec Schema.Json Schema.Build Schema.Proofs Schema.ConProofs Schema.ShapeProofs.
+From AV Require Import Schema.DepReqAgree Schema.ObjAgree Schema.NestAgree Schema.RefAgree Core.Json Deser.Model Deser.Spec Schema.Json Schema.Build Schema.Proofs Schema.ConProofs Schema.ShapeProofs.
 Import ListNotations.
 
 (* a Literal / Enum schema accepts exactly the listed values (on the common domain: no integer-valued float) *)
@@ -80,8 +80,9 @@ Proof. vm_compute. repeat split. Qed.
    recursive classes), against the schema AND the definitions the builder itself emits.  The recursion of the validator through
    the references and of the deserializer through the classes both follow the data: the proof is by induction on the nesting of
    objects in the datum, then on the type, and the fuels of the two interpreters only need to exceed that nesting.
-   Conditions (ref_hyps, all executable and evaluated by the run on every case): no fall_back_on_default, no
-   dependentRequired, order() keeps the declaration order, Annotated and mapping keys over object-free types, the
+   Conditions (ref_hyps, all executable and evaluated by the run on every case): no fall_back_on_default,
+   dependent_required over declared fields (then the `dependentRequired` keyword is exactly the "required by" rule of the
+   specification: C06_dependent_required_keyword_is_the_spec_rule), order() keeps the declaration order, Annotated and mapping keys over object-free types, the
    object-free side conditions on every field type, every extracted reference names a listed class or enum. *)
 Theorem C06_schema_accepts_iff_deserializer_accepts_with_classes :
   forall u o names classes enums mD n jf sf ign t d,
@@ -109,3 +110,22 @@ Theorem C06_class_hypotheses_satisfiable :
   /\ nest_hyps nest_ex_univ nest_ex_opts (fun _ => false) 2 false (TObj 2) nest_ex_bad = true.
 Proof. vm_compute. repeat split. Qed.
 Print Assumptions C06_class_hypotheses_satisfiable.
+
+(* dependent_required: the `dependentRequired` keyword the builder emits (aliased names, sorted) holds of an object exactly
+   when the specification's rule "a field absent from the datum is not required by a present one" rejects nothing - for
+   every class whose dependencies name declared fields, every aliaser, every object. *)
+Theorem C06_dependent_required_keyword_is_the_spec_rule : forall o cd (kvs : list (string * pyval)),
+  wf_depreq cd = true ->
+  depreq_ok (depreq_schema o cd) (PDict kvs) = no_missing_dependency o cd kvs.
+Proof. exact depreq_keyword_is_the_spec_rule. Qed.
+Print Assumptions C06_dependent_required_keyword_is_the_spec_rule.
+
+(* the class theorems apply to classes with dependencies: a discount code requires the e-mail, under a prefixing aliaser *)
+Theorem C06_dependent_required_hypotheses_satisfiable :
+  nest_hyps dr_ex_univ dr_ex_opts (fun _ => false) 1 false (TObj 0) dr_ex_good = true
+  /\ nest_hyps dr_ex_univ dr_ex_opts (fun _ => false) 1 false (TObj 0) dr_ex_bad = true
+  /\ accepts (spec dr_ex_univ dr_ex_opts 2 None (TObj 0) dr_ex_good) = true
+  /\ accepts (spec dr_ex_univ dr_ex_opts 2 None (TObj 0) dr_ex_bad) = false
+  /\ depreq_schema dr_ex_opts (get_cls dr_ex_univ 0) = [("p_discount", ["p_e_mail"; "p_name"])]%string.
+Proof. exact dr_ex. Qed.
+Print Assumptions C06_dependent_required_hypotheses_satisfiable.
